@@ -48,6 +48,7 @@ inductive Src where
   | bool (b : Bool)
   | str (s : StrInfo)
   | big (v : Int)             -- a big.Int value (what Deref yields for *big.Int)
+  | cplx (re im mag : F)      -- a complex64/128; `mag` = math.Sqrt(re*re + im*im) as Go computed it (parameter)
   | nilptr                    -- nil interface or nil pointer
   | other                     -- struct, slice, map, func, …
   deriving Repr, Inhabited
@@ -154,6 +155,7 @@ def toInt64 : Src → R Int
   | .str s => stringToInt64 s
   | .bool b => .ok (boolInt b)
   | .big _ => .error .unsupported
+  | .cplx _ _ _ => .error .unsupported
   | .nilptr => .error .nilPtr
   | .other => .error .unsupported
 
@@ -194,6 +196,7 @@ def toFloat64 : Src → R F
   | .f32 x => if x.isNaN then .error .format else .ok x
   | .int _ v => .ok (.fin (toF64Int v) 0)
   | .big v => finOrOverflow (bigToF64 v)                        -- Inf guard: added by the fix
+  | .cplx _ _ mag => .ok mag                                     -- the magnitude, whatever it is (known finding)
   | .str s => stringToFloat64 s
   | .bool b => .ok (.fin (boolInt b) 0)
   | .nilptr => .error .nilPtr
@@ -236,6 +239,7 @@ def toBool : Src → R Bool
   | .f32 x => if x.isNaN then .error .format else .ok (!isZero x)   -- NaN guard: added by the fix
   | .f64 x => if x.isNaN then .error .format else .ok (!isZero x)
   | .big _ => .error .unsupported
+  | .cplx _ _ _ => .error .unsupported
   | .nilptr => .error .nilPtr
   | .other => .error .unsupported
 
@@ -251,6 +255,7 @@ def toStr (fmt32 fmt64 : F → List Nat) : Src → R (List Nat)
   | .big v => .ok (decBytes v)
   | .f32 x => .ok (fmt32 x)
   | .f64 x => .ok (fmt64 x)
+  | .cplx _ _ _ => .error .unsupported      -- (Go renders "%g"; complex → string is not exercised)
   | .nilptr => .error .nilPtr
   | .other => .error .unsupported
 
@@ -281,6 +286,7 @@ def toBigInt : Src → R Int
   | .str s => stringToBig s
   | .bool b => .ok (boolInt b)
   | .big _ => .error .unsupported
+  | .cplx _ _ _ => .error .unsupported
   | .nilptr => .error .nilPtr
   | .other => .error .unsupported
 
